@@ -16,10 +16,33 @@ import copy
 
 import z3
 
-from pvc.units import (unit, mk_obj, term_of, run, callback, calls_of, LoopSpec, Interp, PyRaise, SymObj,
+from pvc.units import (unit, mk_obj, term_of, callback, calls_of, LoopSpec, Interp, PyRaise, SymObj,
                        SymSeq, SummaryFn, Obj, Sym, SInt, SBool, SStr, SVal, Val, concretize, exc_name)
 from pvc.core import Unsupported
+from pvc import units as _units
 from specs import pyeffects as PE
+
+
+def run(it, fn, args=(), kwargs=None):
+    if getattr(it, "native", False):
+        from pvc.native import native_run
+
+        return native_run(fn, args, kwargs)
+    return _units.run(it, fn, args, kwargs)
+
+
+def _replay_native(unit_name):
+    def replay(o):
+        import json as _json
+
+        prop = o["name"].split("/")[0]
+        return (f"import subprocess, sys\n"
+                f"r = subprocess.run([sys.executable, '-m', 'pvc.native', 'contracts.transform', {unit_name!r}, {prop!r}, {o['name']!r}, "
+                f"{_json.dumps(o.get('decisions') or [])!r}], cwd='/verif', capture_output=True, text=True)\n"
+                f"print(r.stdout + r.stderr[-2000:])\nsys.exit(r.returncode)\n")
+
+    return replay
+
 
 TR = "ptera.transform"
 AST = "pystd.ast"
@@ -40,9 +63,66 @@ def setup(c, external=(), free=(), reduced=False):
     """An Interp with a PteraTransformer object whose recursive visit / should_instrument / _evaluate are contracts.
     reduced=True: instead of all 2^n capture subsets, explore {all, none, each singleton, each co-singleton} of the
     (up to 16) names asked -- should_instrument is consulted independently per (name, annotation)."""
-    it = Interp(c)
     decisions = {}
     mode = c.choose(2 + 2 * 16, "subset") if reduced else None
+
+    def decide_key(key):
+        if key not in decisions:
+            if mode is None:
+                decisions[key] = bool(c.choose(2, "instrument"))
+            elif mode < 2:
+                decisions[key] = mode == 0
+            else:
+                j, co = divmod(mode - 2, 2)
+                decisions[key] = (len(decisions) == j) != bool(co)
+        return decisions[key]
+
+    def norm_ann(ann):
+        if isinstance(ann, ast.Constant) and ann.value is None:
+            return None  # _interact passes Constant(None) for "no annotation"
+        return ann
+
+    def visit_hole(node):
+        """Induction hypothesis: visit(hole) is the marker of the visited hole (None: not a hole)."""
+        if isinstance(node, ast.Name) and node.id.startswith("__E"):
+            return ast.copy_location(ast.Name(id="__VE" + node.id[3:], ctx=ast.Load()), node)
+        if isinstance(node, ast.Expr) and isinstance(node.value, ast.Name) and node.value.id.startswith("__S"):
+            r = ast.copy_location(ast.Expr(ast.copy_location(ast.Name(id="__VS" + node.value.id[3:], ctx=ast.Load()), node)), node)
+            return [r] if (len(node.value.id) % 2 if mode is not None else c.choose(2, "visit-returns-list")) else r
+        return None
+
+    fields = dict(vardoc={}, used=set(), assigned=set(), free=set(free), external=set(external), provenance={}, annotated={},
+                  linenos={}, defaults={}, lib=dict(LIB), filename="<schema>", globals={}, to_instrument=[])
+    if getattr(c, "native", False):
+        # native replay: the REAL PteraTransformer executed by CPython, same contracts for visit(hole)/should_instrument/_evaluate
+        from pvc.native import NativeInterp
+        import importlib as _il
+
+        real = _il.import_module("ptera.transform")
+        from ptera.utils import ABSENT
+
+        class T(real.PteraTransformer):
+            def __init__(self):
+                pass
+
+            def visit(self, node):
+                r = visit_hole(node)
+                return r if r is not None else super().visit(node)
+
+            def should_instrument(self, varname, ann=None):
+                ann = norm_ann(ann)
+                return decide_key((varname, None if ann is None else PE.dump(ann)))
+
+            def _evaluate(self, node):
+                return object()
+
+        tr = T()
+        for k_, v_ in fields.items():
+            setattr(tr, k_, v_)
+        tr.evalcache = {None: ABSENT}
+        return NativeInterp(c), tr, decisions
+
+    it = Interp(c)
 
     def hook(mod, name):
         if mod == "ast" and name in ("NodeTransformer", "NodeVisitor"):
@@ -55,19 +135,8 @@ def setup(c, external=(), free=(), reduced=False):
 
     def should(it_, f, args, kwargs):
         varname = args[1]
-        ann = args[2] if len(args) > 2 else kwargs.get("ann")
-        if isinstance(ann, ast.Constant) and ann.value is None:
-            ann = None  # _interact passes Constant(None) for "no annotation"
-        key = (varname, None if ann is None else PE.dump(ann))
-        if key not in decisions:
-            if mode is None:
-                decisions[key] = bool(c.choose(2, "instrument"))
-            elif mode < 2:
-                decisions[key] = mode == 0
-            else:
-                j, co = divmod(mode - 2, 2)
-                decisions[key] = (len(decisions) == j) != bool(co)
-        return decisions[key]
+        ann = norm_ann(args[2] if len(args) > 2 else kwargs.get("ann"))
+        return decide_key((varname, None if ann is None else PE.dump(ann)))
 
     def evaluate(it_, f, args, kwargs):
         node = args[1]
@@ -75,11 +144,9 @@ def setup(c, external=(), free=(), reduced=False):
 
     def visit(it_, f, args, kwargs):
         self_, node = args
-        if isinstance(node, ast.Name) and node.id.startswith("__E"):
-            return ast.copy_location(ast.Name(id="__VE" + node.id[3:], ctx=ast.Load()), node)
-        if isinstance(node, ast.Expr) and isinstance(node.value, ast.Name) and node.value.id.startswith("__S"):
-            r = ast.copy_location(ast.Expr(ast.copy_location(ast.Name(id="__VS" + node.value.id[3:], ctx=ast.Load()), node)), node)
-            return [r] if (len(node.value.id) % 2 if mode is not None else c.choose(2, "visit-returns-list")) else r
+        r = visit_hole(node)
+        if r is not None:
+            return r
         return it_.call_body(f, args, kwargs)
 
     def visit_constant(it_, f, args, kwargs):
@@ -90,9 +157,7 @@ def setup(c, external=(), free=(), reduced=False):
     it.policies[PT + "_evaluate"] = evaluate
     it.policies[AST + ":NodeVisitor.visit"] = visit
     it.policies[AST + ":NodeVisitor.visit_Constant"] = visit_constant
-    tr = mk_obj(it, TR, "PteraTransformer", vardoc={}, used=set(), assigned=set(), free=set(free), external=set(external), provenance={},
-                annotated={}, evalcache={None: it.models.absent(it)}, linenos={}, defaults={}, lib=dict(LIB), filename="<schema>", globals={},
-                to_instrument=[])
+    tr = mk_obj(it, TR, "PteraTransformer", evalcache={None: it.models.absent(it)}, **fields)
     return it, tr, decisions
 
 
@@ -250,7 +315,7 @@ ASSIGN_SCHEMAS = [
 ]
 
 
-@unit("visit_Assign", ["C01", "C02", "C04", "C16"], VISITORS)
+@unit("visit_Assign", ["C01", "C02", "C04", "C16"], VISITORS, replay=_replay_native("visit_Assign"))
 def u_visit_assign(c):
     """Plain, attribute, subscript, chained, tuple, nested-tuple, starred and list-target assignment for every
     instrumentation subset of the bound names."""
@@ -278,7 +343,7 @@ ANN_SCHEMAS = [
 ]
 
 
-@unit("visit_AnnAssign", ["C01", "C02", "C11", "C16", "C04"], VISITORS)
+@unit("visit_AnnAssign", ["C01", "C02", "C11", "C16", "C04"], VISITORS, replay=_replay_native("visit_AnnAssign"))
 def u_visit_annassign(c):
     """Annotated assignment with value, with a tag string, and the bare declaration (value = the ABSENT marker,
     which must reach user code only through an interact call)."""
@@ -326,7 +391,7 @@ AUG_SCHEMAS = [
 ]
 
 
-@unit("visit_AugAssign", ["C01", "C02", "C04"], VISITORS)
+@unit("visit_AugAssign", ["C01", "C02", "C04"], VISITORS, replay=_replay_native("visit_AugAssign"))
 def u_visit_augassign(c):
     """x += E: the augmented statement is kept (operand visited) and followed by x = interact('x', ..., x)."""
     it, tr, dec = setup(c)
@@ -351,7 +416,7 @@ def u_visit_augassign(c):
         c.prove("name/event-follows-the-augmented-statement", len(outs) == 2 and isinstance(outs[0], ast.AugAssign) and isinstance(outs[1], ast.Assign), only=["C02", "C04"])
 
 
-@unit("visit_NamedExpr", ["C01", "C02", "C04"], VISITORS)
+@unit("visit_NamedExpr", ["C01", "C02", "C04"], VISITORS, replay=_replay_native("visit_NamedExpr"))
 def u_visit_namedexpr(c):
     """(x := E) becomes (x := interact('x', None, None, visit(E), True))."""
     it, tr, dec = setup(c)
@@ -368,7 +433,7 @@ IMPORT_SCHEMAS = [
 ]
 
 
-@unit("visit_Import", ["C01", "C02"], VISITORS)
+@unit("visit_Import", ["C01", "C02"], VISITORS, replay=_replay_native("visit_Import"))
 def u_visit_import(c):
     """import / from-import: the statement is kept and each bound name gets one interaction afterwards."""
     it, tr, dec = setup(c)
@@ -380,7 +445,7 @@ def u_visit_import(c):
     check_schema(c, it, tr, dec, src, evs, label)
 
 
-@unit("visit_Return", ["C01", "C04", "C06"], VISITORS)
+@unit("visit_Return", ["C01", "C04", "C06"], VISITORS, replay=_replay_native("visit_Return"))
 def u_visit_return(c):
     """return E -> return interact('#value', None, None, visit(E), True); a bare return reports None."""
     it, tr, dec = setup(c)
@@ -400,7 +465,7 @@ def u_visit_return(c):
         c.prove("bare-return/value-event-reports-None", got == exp, only=["C06"])
 
 
-@unit("visit_Yield", ["C01", "C06", "C04"], VISITORS)
+@unit("visit_Yield", ["C01", "C06", "C04"], VISITORS, replay=_replay_native("visit_Yield"))
 def u_visit_yield(c):
     """yield E -> interact('#receive', None, enter_tag, (yield interact('#yield', None, exit_tag, visit(E), True)), True):
     one #yield event with the yielded value, then on resumption one #receive with the sent value."""
@@ -440,7 +505,7 @@ FOR_SCHEMAS = [
 ]
 
 
-@unit("visit_For", ["C01", "C02", "C06"], VISITORS)
+@unit("visit_For", ["C01", "C02", "C06"], VISITORS, replay=_replay_native("visit_For"))
 def u_visit_for(c):
     """for T in E: body -> for T in visit(E): try: #loop_v..., target interactions, visit(body) finally: #endloop_v...
     for every variable v of the target; else-branch visited; every target form accepted."""
@@ -483,7 +548,7 @@ def u_visit_for(c):
             and ("__S2" not in src or "__VS2" in PE.dump(out.orelse)), only=["C02", "C06"])
 
 
-@unit("visit_Try", ["C01", "C02"], VISITORS)
+@unit("visit_Try", ["C01", "C02"], VISITORS, replay=_replay_native("visit_Try"))
 def u_visit_try(c):
     """try/except: the exception name is reported at the start of the handler; type expression and bodies visited."""
     it, tr, dec = setup(c)
@@ -513,7 +578,7 @@ PASS_SCHEMAS = [
 ]
 
 
-@unit("pass-through", ["C01", "C02"], VISITORS + [AST + ":NodeTransformer.generic_visit", AST + ":NodeVisitor.visit"])
+@unit("pass-through", ["C01", "C02"], VISITORS + [AST + ":NodeTransformer.generic_visit", AST + ":NodeVisitor.visit"], replay=_replay_native("pass-through"))
 def u_passthrough(c):
     """Statement forms without a dedicated rule go through NodeTransformer.generic_visit (interpreted from the stdlib source):
     while / if / with / nested def / class / global / nonlocal / expression / del / raise / assert / lambda / comprehension."""
@@ -551,7 +616,7 @@ def _split_root(out):
     return doc, w, inner, tr_
 
 
-@unit("visit_FunctionDef", ["C01", "C02", "C06", "C16", "C11"], VISITORS)
+@unit("visit_FunctionDef", ["C01", "C02", "C06", "C16", "C11"], VISITORS, replay=_replay_native("visit_FunctionDef"))
 def u_visit_functiondef(c):
     """Root function: `with proceed(self) as frame:` around try / except BaseException as #error / finally; #enter first,
     external and closure prelude, one interaction per parameter in signature order carrying its annotation, visited body;
